@@ -1,7 +1,7 @@
 (* C01 — property theorems only (proofs: C01/ArrangementProofs.v, C01/OracleProofs.v, C01/PredSound.v). *)
 From Coq Require Import ZArith List Bool Lia.
 From GeosV.Lib Require Import GeomDefs LocateDefs ValidDefs GenPreludePred IM.
-From GeosV.C01 Require Import ArrangementDefs ArrangementProofs OracleDefs OracleProofs IMGen Pred PredSound.
+From GeosV.C01 Require Import ArrangementDefs ArrangementProofs OracleDefs OraclePred OracleProofs OracleInvariance IMGen Pred PredSound.
 Import ListNotations.
 Local Open Scope Z_scope.
 
@@ -43,6 +43,29 @@ Theorem C01_oracle_transpose : forall r A B, relate_oracle r B A = transpose (re
 Proof. exact oracle_transpose. Qed.
 Print Assumptions C01_oracle_transpose.
 
+(* invariance under the similarities of the grid: translation by a grid vector, reflection in either axis, axis swap *)
+Theorem C01_oracle_invariant : forall r A B,
+  (forall d, relate_oracle r (map_geom (translate d) A) (map_geom (translate d) B) = relate_oracle r A B) /\
+  relate_oracle r (map_geom reflect_x A) (map_geom reflect_x B) = relate_oracle r A B /\
+  relate_oracle r (map_geom reflect_y A) (map_geom reflect_y B) = relate_oracle r A B /\
+  relate_oracle r (map_geom swap_xy A) (map_geom swap_xy B) = relate_oracle r A B.
+Proof.
+  intros. split; [intros; apply oracle_translate|]. split; [apply oracle_reflect_x|]. split; [apply oracle_reflect_y | apply oracle_swap_xy].
+Qed.
+Print Assumptions C01_oracle_invariant.
+
+(* every witness is a genuine rational point (positive denominator) *)
+Theorem C01_witnesses_are_points : forall A B w, In w (witnesses A B) -> 0 < hw (fst w).
+Proof. exact witnesses_pos. Qed.
+Print Assumptions C01_witnesses_are_points.
+
+(* what the driver evaluates: matrix and side certificate in one pass; one rule serves all when neither geometry has lines *)
+Theorem C01_driver_shortcuts : forall r A B,
+  oracle_run r A B = (relate_oracle r A B, side_ok r A B) /\
+  (lines_of A = [] -> lines_of B = [] -> forall r', relate_oracle r A B = relate_oracle r' A B /\ side_ok r A B = side_ok r' A B).
+Proof. intros. split; [apply oracle_run_eq|]. intros HA HB r'. apply oracle_rule_irrelevant; assumption. Qed.
+Print Assumptions C01_driver_shortcuts.
+
 (* every named predicate, evaluated by the GENERATED RelateNG predicate classes through the evaluation protocol on the
    oracle's events (in the oracle's order; PredSound: in any order), returns its DE-9IM pattern-set definition on the
    oracle's matrix — whenever that matrix passes the decision procedure of PredSound.realizable for the real dimensions and
@@ -76,6 +99,12 @@ Example ex_overlap : relate_oracle Mod2 sqA sqB = [2; 1; 2; 1; 0; 1; 2; 1; 2] /\
 Proof. vm_compute. auto. Qed.
 Example ex_line_area : relate_oracle Mod2 lnB sqA = [1; 0; 1; -1; -1; 0; 2; 1; 2] /\ relate_oracle Mod2 sqA lnB = [1; -1; 2; 0; -1; 1; 1; 0; 2] /\
   spec_crosses (dim_real lnB) (dim_real sqA) (relate_oracle Mod2 lnB sqA) = true.
+Proof. vm_compute. auto. Qed.
+Example ex_invariant : relate_oracle Mod2 (map_geom (translate (7, -13)) lnB) (map_geom (translate (7, -13)) sqA) = [1; 0; 1; -1; -1; 0; 2; 1; 2] /\
+  relate_oracle Mod2 (map_geom swap_xy lnB) (map_geom swap_xy sqA) = [1; 0; 1; -1; -1; 0; 2; 1; 2].
+Proof. vm_compute. auto. Qed.
+(* the boundary node rule matters: the end point (6, 18) of lnB is a boundary point for mod-2, not for the multivalent rule *)
+Example ex_rules : relate_oracle MultiValentEndPoint lnB sqA = [1; 0; 1; -1; -1; -1; 2; 1; 2].
 Proof. vm_compute. auto. Qed.
 Example ex_witness : exists w, is_witness Mod2 sqA sqB 0 0 2 w.
 Proof.
